@@ -315,15 +315,19 @@ def runLoad (r : Report) (s : Section) (l : Line) (fs : Fields) (j : J) (j2 : Op
   let mLJ := eitherF32 (fun o => printRes (loadJsonO o fs j)) oc (obs? l.obs "LJ")
   let mLY := eitherF32 (fun o => printRes (loadYamlO o fs (embY j))) oc (obs? l.obs "LY")
   let mLT := eitherF32 (fun o => tomlFront j (fun t => printRes (loadTomlO o fs t))) oc (obs? l.obs "LT")
-  r := checkTok r s l "LJ" mLJ
-  r := checkTok r s l "LY" mLY
-  r := checkTok r s l "LT" mLT
+  -- keys colliding up to case: the pinned loader is nondeterministic there; such documents are checked by `cload`
+  let coll := !(noCaseCollision j)
+  if coll then r := r.addCover "load-collision-unchecked"
+  let ck (r : Report) (key model : String) : Report := if coll then r else checkTok r s l key model
+  r := ck r "LJ" mLJ
+  r := ck r "LY" mLY
+  r := ck r "LT" mLT
   r := r.addCover ("load-" ++ classOf mLJ)
   match j2 with
   | some j2 =>
-    r := checkTok r s l "RJ" (eitherF32 (fun o => printRes (loadJsonO o fs j2)) oc (obs? l.obs "RJ"))
-    r := checkTok r s l "RY" (eitherF32 (fun o => printRes (loadYamlO o fs (embY j2))) oc (obs? l.obs "RY"))
-    r := checkTok r s l "RT" (eitherF32 (fun o => tomlFront j2 (fun t => printRes (loadTomlO o fs t))) oc (obs? l.obs "RT"))
+    r := ck r "RJ" (eitherF32 (fun o => printRes (loadJsonO o fs j2)) oc (obs? l.obs "RJ"))
+    r := ck r "RY" (eitherF32 (fun o => printRes (loadYamlO o fs (embY j2))) oc (obs? l.obs "RY"))
+    r := ck r "RT" (eitherF32 (fun o => tomlFront j2 (fun t => printRes (loadTomlO o fs t))) oc (obs? l.obs "RT"))
   | none => pure ()
   let ou : Opts := { env := envOfTy (.struct fs) }
   let mU := eitherF32 (fun o => printRes (unmarshalWith o fs j)) ou (obs? l.obs "U")
@@ -341,8 +345,9 @@ def runLoad (r : Report) (s : Section) (l : Line) (fs : Fields) (j : J) (j2 : Op
   let oLY := np ((obs? l.obs "LY").getD "?")
   let oLT := np ((obs? l.obs "LT").getD "?")
   if l.obs.any (fun t => t.endsWith "=panic") then
-    r := r.violation s.idx l.idx s!"loader-panicked class=panic obs=[{joinSp (l.obs.filter fun t => t.endsWith "=panic")}] doc=[{printTree j}]"
-  if inScope j then
+    let cls := if printRes (loadJsonO { oc with f32Pinned := true } fs j) = "panic" then "env-float32-pointer" else "panic"
+    r := r.violation s.idx l.idx s!"loader-panicked class={cls} obs=[{joinSp (l.obs.filter fun t => t.endsWith "=panic")}] doc=[{printTree j}]"
+  if inScope j ∧ ¬ coll then
     r := r.addCover "format-independence-checked"
     if oLJ ≠ oLY ∨ oLJ ≠ oLT then
       r := r.violation s.idx l.idx s!"format-dependent class=format LJ=[{oLJ}] LY=[{oLY}] LT=[{oLT}] doc=[{printTree j}]"
@@ -395,7 +400,8 @@ def runMunm (r : Report) (s : Section) (l : Line) (fs : Fields) (bits : Nat) (j 
   -- monitor, on the implementation's observations only
   let g (k : String) : String := (obs? l.obs k).getD "?"
   if l.obs.any (fun t => t.endsWith "=panic") then
-    r := r.violation s.idx l.idx s!"loader-panicked class=panic at=mapping opts={bits} obs=[{joinSp (l.obs.filter fun t => t.endsWith "=panic")}] doc=[{printTree j}]"
+    let cls := if printRes (unmarshalWith { o with f32Pinned := true } fs j) = "panic" then "env-float32-pointer" else "panic"
+    r := r.violation s.idx l.idx s!"loader-panicked class={cls} at=mapping opts={bits} obs=[{joinSp (l.obs.filter fun t => t.endsWith "=panic")}] doc=[{printTree j}]"
   if g "MJB" ≠ g "MJR" ∨ g "MYB" ≠ g "MYR" ∨ g "MTB" ≠ g "MTR" then
     r := r.violation s.idx l.idx s!"reader-differs-from-bytes class=reader opts={bits} MJB=[{g "MJB"}] MJR=[{g "MJR"}] MYB=[{g "MYB"}] MYR=[{g "MYR"}] MTB=[{g "MTB"}] MTR=[{g "MTR"}]"
   if inScope j then
@@ -422,6 +428,9 @@ def runCload (r : Report) (s : Section) (l : Line) (fs : Fields) (j : J) : Repor
   r := r.addCover (if noCaseCollision j then "cload-no-collision" else "cload-collision")
   -- monitor first: the load must be a function of the document
   let nd := ["CJ", "CY", "CT"].filter fun k => g k = "nondet"
+  if l.obs.any (fun t => t.endsWith "panic") then
+    let cls := if printRes (loadJsonDet { oc with f32Pinned := true } fs j) = "panic" then "env-float32-pointer" else "panic"
+    r := r.violation s.idx l.idx s!"loader-panicked class={cls} obs=[{joinSp l.obs}] doc=[{printTree j}]"
   if nd ≠ [] then
     r := r.violation s.idx l.idx s!"nondeterministic-load class=case-collision loaders=[{joinSp nd}] the same document loaded repeatedly gives different results doc=[{printTree j}]"
   else
@@ -504,6 +513,9 @@ def runFload (r : Report) (s : Section) (l : Line) (fs : Fields) (ext : String) 
   let want := if api = "MustLoad" ∧ model.startsWith "ok:" then ["M=same"] else []
   if l.obs.drop 1 ≠ want then r := r.mismatch s.idx l.idx (joinSp (model :: want)) (joinSp l.obs)
   -- monitor: the result on the file is the result of the format's loader on the (un)expanded document
+  if impl = "panic" then
+    let cls := if printRes (loadJsonO { oc with f32Pinned := true } fs j') = "panic" then "env-float32-pointer" else "panic"
+    r := r.violation s.idx l.idx s!"loader-panicked class={cls} at=conf.{api} ext={ext}"
   if l.obs.contains "M=diff" then
     r := r.violation s.idx l.idx s!"MustLoad-differs-from-Load class=file-api ext={ext}"
   if docHasDollar j ∧ impl.startsWith "ok:" then
@@ -577,9 +589,12 @@ def runSection (r : Report) (s : Section) : Report := Id.run do
     | ["filldef"] =>
       match st.fs with
       | some fs =>
-        let model := printRes ((fillDefaults { env := envOfTy (.struct fs) } fs).map .struct)
+        let model := eitherF32 (fun o => printRes ((fillDefaults o fs).map .struct)) { env := envOfTy (.struct fs) } (some (joinSp l.obs))
         r := r.addCover ("filldef-" ++ classOf model)
         if joinSp l.obs ≠ model then r := r.mismatch s.idx l.idx model (joinSp l.obs)
+        if joinSp l.obs = "panic" then
+          let cls := if printRes ((fillDefaults { env := envOfTy (.struct fs), f32Pinned := true } fs).map .struct) = "panic" then "env-float32-pointer" else "panic"
+          r := r.violation s.idx l.idx s!"loader-panicked class={cls} at=FillDefault"
       | none => r := r.mismatch s.idx l.idx "no-type" (joinSp l.obs)
     | ["fload", ext, env, api, _, d] =>
       match st.fs, parseDocTok d with
